@@ -2411,41 +2411,17 @@ bool olc_db<Key, Value>::iterator::try_seek(art_key_type search_key,
         // Note: [node] has not been pushed onto the stack yet!
         auto nxt = inode->gte_key_byte(node_type, remaining_key[0]);
         if (!nxt) {
-          // Pop entries off the stack until we find one with a
-          // right-sibling of the path we took to this node and then
-          // do a left-most descent under that right-sibling. If there
-          // is no such parent, we will wind up with an empty stack
-          // (aka the end() iterator) and return that state.
-          if (UNODB_DETAIL_UNLIKELY(
-                  !parent_critical_section.try_read_unlock()))  // unlock parent
-            return false;  // LCOV_EXCL_LINE
-          if (UNODB_DETAIL_UNLIKELY(
-                  !node_critical_section.try_read_unlock()))  // unlock node
-            return false;                                     // LCOV_EXCL_LINE
-          if (!empty()) pop();
-          while (!empty()) {
-            const auto& centry = top();
-            const auto cnode{centry.node};  // a possible parent from the stack.
-            auto c_critical_section(
-                node_ptr_lock(cnode).rehydrate_read_lock(centry.version));
-            if (UNODB_DETAIL_UNLIKELY(!c_critical_section.check()))
-              return false;  // LCOV_EXCL_LINE
-            auto* const icnode{cnode.template ptr<inode_type*>()};
-            const auto cnxt = icnode->next(
-                cnode.type(), centry.child_index);  // right-sibling.
-            if (cnxt) {
-              auto nchild = icnode->get_child(
-                  cnode.type(), centry.child_index);  // get the child
-              if (UNODB_DETAIL_UNLIKELY(
-                      !c_critical_section.check()))  // before using [nchild]
-                return false;                        // LCOV_EXCL_LINE
-              return try_left_most_traversal(nchild, c_critical_section);
-            }
-            pop();
-            if (UNODB_DETAIL_UNLIKELY(!c_critical_section.try_read_unlock()))
-              return false;  // LCOV_EXCL_LINE
-          }
-          return true;  // stack is empty (aka end()).
+          // Every key under [node] is ordered before the search key:
+          // right-most descent under [node] and then next() (if there
+          // is no successor we wind up with an empty stack, aka the
+          // end() iterator).
+          //
+          // Note: parent_critical_section is unlocked along all paths
+          // by try_right_most_traversal
+          return unlock_and_return(
+                     node_critical_section,
+                     try_right_most_traversal(node, parent_critical_section)) &&
+                 try_next();
         }
         const auto& tmp = nxt.value();  // unwrap.
         const auto child_index = tmp.child_index;
@@ -2468,40 +2444,17 @@ bool olc_db<Key, Value>::iterator::try_seek(art_key_type search_key,
       // immediate precessor of the desired key in the data.
       auto nxt = inode->lte_key_byte(node_type, remaining_key[0]);
       if (!nxt) {
-        // Pop off the current entry until we find one with a
-        // left-sibling and then do a right-most descent under that
-        // left-sibling.  In the extreme case there is no such
-        // previous entry and we will wind up with an empty stack.
-        if (UNODB_DETAIL_UNLIKELY(
-                !parent_critical_section.try_read_unlock()))  // unlock parent
-          return false;                                       // LCOV_EXCL_LINE
-        if (UNODB_DETAIL_UNLIKELY(
-                !node_critical_section.try_read_unlock()))  // unlock node
-          return false;                                     // LCOV_EXCL_LINE
-        if (!empty()) pop();
-        while (!empty()) {
-          const auto& centry = top();
-          const auto cnode{centry.node};  // a possible parent from stack
-          auto c_critical_section(
-              node_ptr_lock(cnode).rehydrate_read_lock(centry.version));
-          if (UNODB_DETAIL_UNLIKELY(!c_critical_section.check()))
-            return false;  // LCOV_EXCL_LINE
-          auto* const icnode{cnode.template ptr<inode_type*>()};
-          const auto cnxt =
-              icnode->prior(cnode.type(), centry.child_index);  // left-sibling.
-          if (cnxt) {
-            auto nchild = icnode->get_child(
-                cnode.type(), centry.child_index);  // get the child
-            if (UNODB_DETAIL_UNLIKELY(
-                    !c_critical_section.check()))  // before using [nchild]
-              return false;                        // LCOV_EXCL_LINE
-            return try_right_most_traversal(nchild, c_critical_section);
-          }
-          pop();
-          if (UNODB_DETAIL_UNLIKELY(!c_critical_section.try_read_unlock()))
-            return false;  // LCOV_EXCL_LINE
-        }
-        return true;  // stack is empty (aka end()).
+        // Every key under [node] is ordered after the search key:
+        // left-most descent under [node] and then prior() (if there
+        // is no predecessor we wind up with an empty stack, aka the
+        // end() iterator).
+        //
+        // Note: parent_critical_section is unlocked along all paths
+        // by try_left_most_traversal
+        return unlock_and_return(
+                   node_critical_section,
+                   try_left_most_traversal(node, parent_critical_section)) &&
+               try_prior();
       }
       const auto& tmp = nxt.value();  // unwrap.
       const auto child_index = tmp.child_index;
